@@ -379,6 +379,14 @@ def genFields (cfg : GCfg) (ctx : GCtx) (traits : List String) (kind : FieldsKin
       let nm := if kind == .named then
           some (if rawNames && i == 0 then "r#type" else names.getD i "z") else none
       pure ({ attrs, vis, name := nm, ty } : Field)
+    -- now and then the last field is a bare parameter (it may be declared `?Sized`)
+    let fs ← if ctx.hasT && (← chance 1 5) then
+        (match fs.reverse with
+         | last :: rest => do
+           let ty ← pick [tyT, tyT, tyU, Ty.simple "str", .slice tyT]
+           pure (({ last with ty } : Field) :: rest).reverse
+         | [] => pure fs)
+      else pure fs
     pure { kind, fields := fs }
 
 def genGenerics (cfg : GCfg) : Gen (Generics × GCtx) := do
@@ -406,7 +414,13 @@ def genGenerics (cfg : GCfg) : Gen (Generics × GCtx) := do
          .ty [] tyT [.trait false [] (Ty.simple "W1")]]),
     (1, [.ty ["'x"] (.ref (some "'x") false tyT) [.trait false [] (Ty.simple "W4")]]),
     (1, [.ty [] tyT [.trait true [] (Ty.simple "Sized")]]),
-    (1, [.ty [] tyT [.trait false [] (Ty.simple "W1"), .trait true [] (.path true [.mk "core" [], .mk "marker" [], .mk "Sized" []])]])]
+    (1, [.ty [] tyT [.trait false [] (Ty.simple "W1"), .trait true [] (.path true [.mk "core" [], .mk "marker" [], .mk "Sized" []])]]),
+    -- `?Sized` next to other predicates (the unsized-last-field rule of Debug looks through all of them)
+    (1, [.ty [] tyT [.trait false [] (Ty.simple "W1")], .ty [] tyT [.trait true [] (Ty.simple "Sized")]]),
+    (1, [.ty [] tyT [.trait true [] (Ty.simple "Sized")], .ty [] (Ty.app "Vec" [tyT]) [.trait false [] (Ty.simple "W1")]]),
+    (1, [.lt "'a" ["'static"], .ty [] tyT [.trait false [] (Ty.simple "W1")]]),
+    (1, [.ty [] (Ty.app "Box" [tyT]) [.trait true [] (Ty.simple "Sized")]]),
+    (1, [.ty [] (.path true [.mk "T" []]) [.trait true [] (Ty.simple "Sized")]])]
   pure ({ params := ps, wheres := wh }, { hasT := true, hasU, hasN, hasLt })
 
 def genDeriveItems (cfg : GCfg) (traits : List String) (marker : Nat) : Gen (List DeriveItem) :=
